@@ -156,6 +156,16 @@ static unsigned long long rs;
 static unsigned rnd(void) { rs = rs * 6364136223846793005ULL + 1442695040888963407ULL; return (unsigned)(rs >> 33); }
 static void gen_data(unsigned char* p, size_t n, unsigned long long seed) {
     size_t i = 0; rs = seed;
+    if ((seed >> 40) == 1 && n >= (3u << 20)) {
+        /* "ldmjob" data: incompressible bytes with ONE long repetition placed in the 1 MiB chunk c >= 2 of the first job, so that the long-distance
+         * matcher of a multi-MiB job meets match-free chunks (not only the first of the job) before a chunk that holds a match */
+        size_t const MB = 1u << 20, jmb = n >> 20, ln = 8192; size_t c = 2 + (size_t)(seed & 0xff) % (jmb - 2 ? jmb - 2 : 1), dst, src;
+        if (c >= jmb) c = jmb - 1;
+        for (i = 0; i < n; i++) p[i] = (unsigned char)rnd();
+        dst = c * MB + 300000 + (size_t)((seed >> 8) & 0xffff) * 8 % 600000; src = ((seed >> 24) & 1) ? dst - 150000 : 5000 + (size_t)((seed >> 8) & 0xfff);
+        if (dst + ln < n) memcpy(p + dst, p + src, ln);
+        return;
+    }
     while (i < n) { unsigned k = rnd() % 100; size_t len = 1 + rnd() % 400; size_t j; if (len > n - i) len = n - i;
         if (k < 40 && i > 100) { size_t maxd = i < 3000000u ? i : 3000000u; size_t d = 1 + rnd() % maxd; for (j = 0; j < len; j++) p[i + j] = p[i + j - d]; }
         else if (k < 75) { for (j = 0; j < len; j++) p[i + j] = (unsigned char)("etaoin shrdlu,.\n"[rnd() % 17]); }
